@@ -392,6 +392,9 @@ func genAbortVector(r *rng, k int) (string, string) {
 
 func genBig(r *rng) string {
 	n := 1 << uint(r.between(10, 16))
+	if r.chance(1, 40) {
+		n = 1 << uint(r.between(18, 22)) // up to 4 MiB
+	}
 	switch r.intn(5) {
 	case 0:
 		return strings.Repeat("/", n)
